@@ -369,8 +369,9 @@ def run_mc_set(rep, binp, configs, what, module='MC_DecQ', kind='dec'):
     monitor (violations are fatal) and compared call by call with the model's predictions (MODEL-DRIFT notes)."""
     import concurrent.futures
     t = time.time()
-    with concurrent.futures.ThreadPoolExecutor(max_workers=5) as ex:
-        futs = [ex.submit(mc_run, module, cfg, ('NoViolation',), (), 'View', 3, 3000, True) for cfg in configs]
+    # exporting runs are single-threaded (one behaviour per state, printed in BFS order): parallelism comes from the configurations
+    with concurrent.futures.ThreadPoolExecutor(max_workers=10) as ex:
+        futs = [ex.submit(mc_run, module, cfg, ('NoViolation',), (), 'View', 3, 3000, True, '4g') for cfg in configs]
         runs = [f.result() for f in futs]
     log('TLC model checking of %d configurations of %s in %.1fs' % (len(configs), module, time.time() - t))
     outdir = '%s/%s/mcreplay_%s' % (RUN, rep.prop, module)
